@@ -57,7 +57,7 @@ PROPS = {
     "C15": {"level": "exploration", "assumptions": TRUST + ["page protection detects stray writes anywhere in an input and reads outside it only up to the adjacent guard page"],
             "rule": "case = (config, length): data and every input fragment / index list placed in its own mapping, read-only during the call, end-pinned or start-pinned against a PROT_NONE page (or 16-aligned with <=15 bytes slack); "
                     "encode, decode (with data loss, shuffled, duplicates), reconstruct (erased and available destination), get_fragment_metadata, is_invalid_fragment, verify_stripe_metadata, fragments_needed all run that way; encode output must equal the reference serializer and the first encode "
-                    "after random unrelated API histories, with other instances alive, and on 8 concurrent threads; a SIGSEGV in a guarded region, a changed input or a differing output is a violation; non-trivial = every (erasure set, placement) and every re-encode; distinct = (config, length, erasure set, placement | history)",
+                    "after random unrelated API histories, with other instances alive, and on 8 concurrent threads; additionally every erasure set |E|<hd of all 38 flat-XOR tables is decoded and reconstructed from write-protected end-pinned fragments (one aligned and one unaligned payload size); a SIGSEGV in a guarded region, a changed input or a differing output is a violation; non-trivial = every (erasure set, placement) and every re-encode; distinct = (config, length, erasure set, placement | history)",
             "runs": [{"name": "plain-guard", "flavour": "plain", "driver": "drv_pure", "args": []},
                      {"name": "asan-guard", "flavour": "asan", "driver": "drv_pure", "args": []},
                      {"name": "asan-nosse-guard", "flavour": "asan-nosse", "driver": "drv_pure", "args": [], "shards": 8},
